@@ -1018,6 +1018,8 @@ class Interp(object):
             self.raise_('TypeError', 'ordering with None')
         if hasattr(a, 'order'):
             return a.order(self, op, b)
+        if isinstance(a, tuple) and isinstance(b, tuple):
+            return self.tuple_order(op, a, b)
         if isinstance(a, (str, bytes)) and isinstance(b, type(a)):
             return {ast.Lt: a < b, ast.LtE: a <= b, ast.Gt: a > b, ast.GtE: a >= b}[type(op)]
         if isinstance(a, NodeId) and isinstance(b, NodeId):
@@ -1039,6 +1041,26 @@ class Interp(object):
         if isinstance(op, ast.GtE):
             return za >= zb
         raise Undecided('compare op')
+
+    def tuple_order(self, op, a, b):
+        """lexicographic comparison of tuples (python semantics)"""
+        strict = isinstance(op, (ast.Lt, ast.Gt))
+        lt = isinstance(op, (ast.Lt, ast.LtE))
+        n = min(len(a), len(b))
+        # result when all compared positions are equal
+        if len(a) == len(b):
+            tail = not strict
+        elif lt:
+            tail = len(a) < len(b)
+        else:
+            tail = len(a) > len(b)
+        res = tail
+        for k in range(n - 1, -1, -1):
+            x, y = a[k], b[k]
+            less = self.compare(ast.Lt() if lt else ast.Gt(), x, y)
+            eq = self.equals(x, y)
+            res = Or(less, And(eq, res))
+        return res
 
     def is_(self, a, b):
         if b is None or a is None:
@@ -1361,6 +1383,21 @@ class Interp(object):
             if all(self.truth(self.eval(c, sub), 'comp-if') for c in g.ifs):
                 out.append(self.eval(e.elt, sub))
         return out
+
+    def ex_DictComp(self, e, fr):
+        if len(e.generators) != 1:
+            raise Undecided('nested comprehension')
+        g = e.generators[0]
+        it = self.eval(g.iter, fr)
+        d = {}
+        sub = Frame(fr.mod, fr.cls, fr.fname, fr)
+        for guard, x in self.iter_items(it, e, fr):
+            if guard is not True and not self.ctx.decide(guard, 'in-set'):
+                continue
+            self.assign(g.target, x, sub)
+            if all(self.truth(self.eval(c, sub), 'comp-if') for c in g.ifs):
+                d[self.dict_key(self.eval(e.key, sub))] = self.eval(e.value, sub)
+        return self.ctx.alloc(PDict(d))
 
     def ex_Lambda(self, e, fr):
         fn = ast.FunctionDef(name='<lambda>', args=e.args, body=[ast.Return(value=e.body, lineno=e.lineno)],
